@@ -44,25 +44,29 @@ GHOST uint64_t GX;    // ghost limb index in [RS, extent) of an aliased, longer 
 #define REXT RS
 #endif
 #if REXT > 0
-#define RES_BYTES (((REXT - 1) * res_sl + NN) * 8)
+#define RES_BYTES_(sl) (((REXT - 1) * (sl) + NN) * 8)
 #else
-#define RES_BYTES 0
+#define RES_BYTES_(sl) 0
 #endif
 #if AS > 0
-#define A_BYTES (((AS - 1) * a_sl + NN) * 8)
+#define A_BYTES_(sl) (((AS - 1) * (sl) + NN) * 8)
 #else
-#define A_BYTES 0
+#define A_BYTES_(sl) 0
 #endif
 #if BS > 0
-#define B_BYTES (((BS - 1) * b_sl + NN) * 8)
+#define B_BYTES_(sl) (((BS - 1) * (sl) + NN) * 8)
 #else
-#define B_BYTES 0
+#define B_BYTES_(sl) 0
 #endif
 
+#define RES_BYTES RES_BYTES_(res_sl)
+#define A_BYTES A_BYTES_(a_sl)
+#define B_BYTES B_BYTES_(b_sl)
 #define REQ_MODULE __CPROVER_is_fresh(module, sizeof(MODULE)) && 1 <= NN && NN <= MAXN
 #define REQ_SHAPE3 res_size == RS && a_size == AS && b_size == BS && res_sl == NN * RM + RA && a_sl == NN * AM + AA && b_sl == NN * BM + BA
 #define REQ_SHAPE2 res_size == RS && a_size == AS && res_sl == NN * RM + RA && a_sl == NN * AM + AA
-#define REQ_GHOST G < NN && (RS == 0 || GL < RS) && (!HAS_PAD || (NN <= GPAD && GPAD < res_sl)) && (REXT <= RS || (RS <= GX && GX < REXT))
+#define REQ_GHOST_(rsl) G < NN && (RS == 0 || GL < RS) && (!HAS_PAD || (NN <= GPAD && GPAD < (rsl))) && (REXT <= RS || (RS <= GX && GX < REXT))
+#define REQ_GHOST REQ_GHOST_(res_sl)
 
 #if ALIAS == 1
 #define REQ_A (a == res && a_sl == res_sl)
@@ -79,13 +83,17 @@ GHOST uint64_t GX;    // ghost limb index in [RS, extent) of an aliased, longer 
 
 // value of input limb GL at coefficient G, an absent limb reads as zero (index clamped so that old() stays in bounds)
 #if AS > 0
-#define A_AT (GL < AS ? __CPROVER_old(a[(GL < AS ? GL : 0) * a_sl + G]) : 0)
+#define A_AT_(A, sl) (GL < AS ? __CPROVER_old((A)[(GL < AS ? GL : 0) * (sl) + G]) : 0)
+#define A_AT A_AT_(a, a_sl)
 #else
+#define A_AT_(A, sl) 0
 #define A_AT 0
 #endif
 #if BS > 0
-#define B_AT (GL < BS ? __CPROVER_old(b[(GL < BS ? GL : 0) * b_sl + G]) : 0)
+#define B_AT_(B, sl) (GL < BS ? __CPROVER_old((B)[(GL < BS ? GL : 0) * (sl) + G]) : 0)
+#define B_AT B_AT_(b, b_sl)
 #else
+#define B_AT_(B, sl) 0
 #define B_AT 0
 #endif
 
@@ -93,7 +101,8 @@ GHOST uint64_t GX;    // ghost limb index in [RS, extent) of an aliased, longer 
 // offset GPAD in [nn, res_sl), one post per limb (limb indices concrete, at most 3 for the box REXT <= 4)
 #if (RM > 1 || RA > 0) && REXT > 1
 #define HAS_PAD 1
-#define PADQ(q) (res[(q)*res_sl + GPAD] == __CPROVER_old(res[(q)*res_sl + GPAD]))
+#define PADQ_(R, sl, q) ((R)[(q) * (sl) + GPAD] == __CPROVER_old((R)[(q) * (sl) + GPAD]))
+#define PADQ(q) PADQ_(res, res_sl, q)
 #else
 #define HAS_PAD 0
 #define PADQ(q) 1
@@ -106,6 +115,7 @@ GHOST uint64_t GX;    // ghost limb index in [RS, extent) of an aliased, longer 
 #define ENS_PAD PADQ(0)
 #endif
 // limbs of an aliased longer input beyond res_size are not written
-#define ENS_TAIL (REXT <= RS || res[GX * res_sl + G] == __CPROVER_old(res[(REXT <= RS ? 0 : GX * res_sl + G)]))
+#define ENS_TAIL_(R, sl) (REXT <= RS || (R)[GX * (sl) + G] == __CPROVER_old((R)[(REXT <= RS ? 0 : GX * (sl) + G)]))
+#define ENS_TAIL ENS_TAIL_(res, res_sl)
 
 #endif
